@@ -769,7 +769,7 @@ theorem skel_Channel_build_inbound_messages : Gen.Skel.Channel_build_inbound_mes
     "yield", "endwhile", "if", "r:exceptions", "then", "call:check_for_errors", "endif"] := by decide
 
 theorem skel_Channel_start_consuming : Gen.Skel.Channel_start_consuming =
-  ["while", "r:is_closed", "do", "call:process_data_events", "if", "r:consumer_tags", "then",
+  ["while", "r:is_closed", "do", "r:consumer_tags", "call:process_data_events", "if", "then",
     "call:time.sleep", "continue", "endif", "break", "endwhile", "if", "r:exceptions", "then",
     "call:check_for_errors", "endif"] := by decide
 
